@@ -95,6 +95,26 @@ impl<E: std::fmt::Display> AddResult for Result<(), E> {
         self.map_err(|e| e.to_string())
     }
 }
+/// Every crate name `add_rust_crate` has a match arm for, read from the source as it is now (so that an arm added
+/// later is exercised without touching this file).
+fn source_arm_names() -> Vec<String> {
+    let Ok(text) = std::fs::read_to_string("/repo/src/backend/project.rs") else { return vec![] };
+    let Some(start) = text.find("pub fn add_rust_crate(") else { return vec![] };
+    let body = &text[start..];
+    let end = body.find("\n    }\n").unwrap_or(body.len());
+    let mut names = Vec::new();
+    for line in body[..end].lines() {
+        let t = line.trim_start();
+        if !t.starts_with('"') { continue; }
+        let Some(arrow) = t.find("=>") else { continue };
+        for part in t[..arrow].split('|') {
+            let n = part.trim().trim_matches('"');
+            if !n.is_empty() && n.chars().all(|c| c.is_ascii_alphanumeric() || c == '_' || c == '-') { names.push(n.to_string()); }
+        }
+    }
+    names
+}
+
 fn add_crate(g: &mut ProjectGenerator, c: &str) -> Result<(), String> {
     g.add_rust_crate(c).into_result()
 }
@@ -384,6 +404,10 @@ pub fn run(out: &mut Out, tier: &str, seed: u64, scratch: &str) {
     // A: whole known table one by one, all flag combinations with fixed crate sets, random subsets
     for c in KNOWN.iter().chain(UNKNOWN.iter()).chain(POPULAR.iter().filter(|p| !KNOWN.contains(p))) {
         manifest_case(out, scratch, "proj", (false, false, false), &[c], 0);
+    }
+    let arms = source_arm_names();
+    for c in arms.iter().filter(|c| !KNOWN.contains(&c.as_str()) && !POPULAR.contains(&c.as_str())) {
+        manifest_case(out, scratch, "proj", (false, false, false), &[c.as_str()], 0);
     }
     for s in [false, true] {
         for t in [false, true] {
